@@ -254,7 +254,9 @@ def _dumps_kvn(data, **kwargs):
 
         extras = {
             "START_TIME": "{:{}}".format(data.start, DATE_FMT_DEFAULT),
-            "STOP_TIME": "{:{}}".format(data.stop, DATE_FMT_DEFAULT),
+            "STOP_TIME": "{:{}}".format(
+                data.stop.change_scale(data.start.scale.name), DATE_FMT_DEFAULT
+            ),
             "INTERPOLATION": data.method.upper(),
         }
         if data.method != data.LINEAR:
@@ -262,12 +264,15 @@ def _dumps_kvn(data, **kwargs):
 
         meta = dump_kvn_meta_odm(data, extras=extras, **kwargs)
 
+        # every date of a segment is written in its TIME_SYSTEM
+        scale = data.start.scale.name
+
         text = []
         cov = []
         for orb in data:
             text.append(
                 "{date:{dfmt}} {orb[0]:{fmt}} {orb[1]:{fmt}} {orb[2]:{fmt}} {orb[3]:{fmt}} {orb[4]:{fmt}} {orb[5]:{fmt}}".format(
-                    date=orb.date,
+                    date=orb.date.change_scale(scale),
                     orb=orb.base / units.km,
                     fmt=" 10f",
                     dfmt=DATE_FMT_DEFAULT,
@@ -281,7 +286,9 @@ def _dumps_kvn(data, **kwargs):
                     cov_text.append("")
 
                 cov_text.append(
-                    "EPOCH = {date:{dfmt}}".format(date=orb.date, dfmt=DATE_FMT_DEFAULT)
+                    "EPOCH = {date:{dfmt}}".format(
+                        date=orb.date.change_scale(scale), dfmt=DATE_FMT_DEFAULT
+                    )
                 )
 
                 if orb.cov.frame != orb.frame:
@@ -318,7 +325,9 @@ def _dumps_xml(data, **kwargs):
 
         extras = {
             "START_TIME": data.start.strftime(DATE_FMT_DEFAULT),
-            "STOP_TIME": data.stop.strftime(DATE_FMT_DEFAULT),
+            "STOP_TIME": data.stop.change_scale(data.start.scale.name).strftime(
+                DATE_FMT_DEFAULT
+            ),
             "INTERPOLATION": data.method.upper(),
         }
         if data.method != data.LINEAR:
@@ -328,10 +337,13 @@ def _dumps_xml(data, **kwargs):
 
         data_tag = ET.SubElement(segment, "data")
 
+        # every date of a segment is written in its TIME_SYSTEM
+        scale = data.start.scale.name
+
         for el in data:
             statevector = ET.SubElement(data_tag, "stateVector")
             epoch = ET.SubElement(statevector, "EPOCH")
-            epoch.text = el.date.strftime(DATE_FMT_DEFAULT)
+            epoch.text = el.date.change_scale(scale).strftime(DATE_FMT_DEFAULT)
 
             elems = {
                 "X": "x",
@@ -353,7 +365,7 @@ def _dumps_xml(data, **kwargs):
                 cov = ET.SubElement(data_tag, "covarianceMatrix")
 
                 cov_date = ET.SubElement(cov, "EPOCH")
-                cov_date.text = el.date.strftime(DATE_FMT_DEFAULT)
+                cov_date.text = el.date.change_scale(scale).strftime(DATE_FMT_DEFAULT)
 
                 if el.cov.frame != el.frame:
                     frame = el.cov.frame
